@@ -653,6 +653,9 @@ func (r *runner) run(c chooser, bodyOnly bool) (string, *failure) {
 		if len(en) > 1 {
 			a = en[c.Choose(len(en), "next")]
 		}
+		if a.tries > 6 {
+			panic(envProblem{"a section keeps aborting for environmental reasons (network)"})
+		}
 		if a.tries == 0 {
 			fs := r.faultsOf(a, bodyOnly)
 			if k := c.Deviate(len(fs)+1, "fault"); k > 0 {
